@@ -210,6 +210,17 @@ impl Cell2 {
         }
     }
 
+    /// The number of shells of periodic images required to find every interaction within a distance
+    ///
+    /// Two positions separated by more than `n` cells along either cell axis are further apart than
+    /// `n` times the smallest height of the cell, so no more shells than this have to be searched
+    /// to find everything within `distance`.
+    ///
+    pub fn periodic_shells(&self, distance: f64) -> i64 {
+        let height = f64::min(self.a(), self.b()) * self.angle().sin();
+        (distance / height).ceil() as i64
+    }
+
     pub fn periodic_images<'a>(
         &'a self,
         transform: Transform2,
